@@ -1,13 +1,13 @@
 package repository
 
 import (
-	"fmt"
 	"os"
 	"strings"
 	"sync"
 	"unicode/utf8"
 
 	"github.com/blevesearch/bleve"
+	"github.com/blevesearch/bleve/search/query"
 )
 
 var _ Index = &bleveIndex{}
@@ -103,22 +103,21 @@ func (b *bleveIndex) Search(terms []string) ([]string, error) {
 	b.mu.RLock()
 	defer b.mu.RUnlock()
 
-	// the quoted form must not be written back into the caller's slice (the Search field of a query)
-	terms = append([]string(nil), terms...)
-	for i, term := range terms {
-		if strings.Contains(term, " ") {
-			terms[i] = fmt.Sprintf("\"%s\"", term)
-		}
-	}
-
 	// a search request returns 10 hits unless told otherwise: ask for all documents
 	count, err := b.index.DocCount()
 	if err != nil {
 		return nil, err
 	}
 
-	query := bleve.NewQueryStringQuery(strings.Join(terms, " "))
-	search := bleve.NewSearchRequestOptions(query, int(count), 0, false)
+	// A term is text to look for, not an expression of bleve's query string language
+	// ("->" or "a:" are syntax errors there, "-crash" a negation, "x:y" a field query):
+	// a document matches a term when it has the words of the term in a row, and the
+	// search returns the documents matching any of the terms.
+	disjuncts := make([]query.Query, len(terms))
+	for i, term := range terms {
+		disjuncts[i] = bleve.NewMatchPhraseQuery(term)
+	}
+	search := bleve.NewSearchRequestOptions(bleve.NewDisjunctionQuery(disjuncts...), int(count), 0, false)
 
 	res, err := b.index.Search(search)
 	if err != nil {
